@@ -72,7 +72,7 @@ def fresh_returning(g: CallGraph, classes):
 
 def run(repo, res, tier):
     res.rules = ["D1 swap-restore on all exits", "D2 who-may-write with style_temp_edit dominance", "D2b default_settings read-only",
-                 "D3 placement frame algebra", "D5 SI prefix table", "D6 animation frame index = labelled path index", "D7 path line keeps the path order"]
+                 "D3 placement frame algebra", "D5 SI prefix table", "D6 animation frame index = labelled path index", "D7 path line keeps the path order", "D8 path index selection clamps"]
     g = CallGraph(repo)
     roots = [r for r in ROOTS if r in g.nodes]
     res.require("magpylib._src.display.display:show" in g.nodes, "anchor vanished: display.show")
@@ -118,6 +118,14 @@ def run(repo, res, tier):
     res.analysed.update({"reachable_from_show": len(seen_all), "reachable_outside_temp_style_region": len(seen_out),
                          "only_inside_temp_style_region": len(temp_only), "style_temp_edit_regions": n_with})
     # ---- D1 + D2
+    helpers = rules_t1.repo_helpers(repo)
+    accounted = {}      # helper name -> attributes whose overwrite/restore is judged in a caller's D1 analysis (as in C08)
+    for fid in sorted(seen_all):
+        t1h = rules_t1.analyse(g.nodes[fid].node, helpers)
+        if t1h and not t1h["bad"] and t1h.get("helper_calls"):
+            for c_ in ast.walk(g.nodes[fid].node):
+                if isinstance(c_, ast.Call) and isinstance(c_.func, ast.Name) and c_.func.id in helpers:
+                    accounted.setdefault(c_.func.id, set()).update(t1h["attrs"])
     for fid in sorted(seen_all):
         n = g.nodes[fid]
         fn, fname = n.node, fid.split(":")[1]
@@ -135,11 +143,11 @@ def run(repo, res, tier):
                     glob_helpers.add(gname)
         if fname in ("MagicProperties.update", "MagicProperties.__setattr__"):
             continue  # judged at the call site (receiver decides)
-        t1 = rules_t1.analyse(fn)
-        paired = set()
+        t1 = rules_t1.analyse(fn, helpers)
+        paired = set(accounted.get(fn.name, ()))
         if t1:
             res.evaluations += t1["exits"]
-            paired = set(t1["attrs"])
+            paired |= set(t1["attrs"])
             res.ob(f"D1:{fname}:{','.join(t1['attrs'])}", not t1["bad"],
                    {"rule": "D1", "function": fname, "attrs": t1["attrs"], "exits_examined": t1["exits"], "unrestored": len(t1["bad"])})
             if t1["bad"]:
@@ -167,6 +175,8 @@ def run(repo, res, tier):
                 ok, why = True, "temporary style (inside style_temp_edit region only)"
             elif n.kind == "method" and n.node.name == "__init__" and rn == "self":
                 ok, why = True, "constructor"
+            elif n.kind == "getter" and rn == "self" and w.kind == "store" and _is_lazy_memo(fn, w):
+                ok, why = True, "lazy memo of a getter (stored only while the attribute is None; coherence is C07/W6)"
             res.ob(f"D2:{fname}:{w.kind}:{w.recv}.{w.attr}", ok, {"rule": "D2", "function": fname, "write": f"{w.kind} {w.recv}.{w.attr}", "accepted_as": why})
             if not ok:
                 res.add(Finding("D2", n.mod.rel, fname, f"{w.kind} {w.recv}.{w.attr}: {norm(w.stmt)}",
@@ -203,6 +213,7 @@ def run(repo, res, tier):
     d5(repo, res)
     d6(repo, res)
     d7(repo, res)
+    d8(repo, res)
     res.assumptions += [f"triaged lazy initialisation (not traversed): {k} - {v}" for k, v in LAZY_INIT.items()]
     res.assumptions += [f"triaged cache {c}.{p}*: {v}" for (c, p), v in CACHES.items()]
     return extra
@@ -319,6 +330,31 @@ def d7(repo, res):
     for b in bad:
         res.add(Finding("D7", m.rel, "make_path", b, "the path positions are reordered / de-duplicated before the path line is drawn: the line no longer passes through "
                         "the object's path positions in path order", b.lineno))
+
+
+def d8(repo, res):
+    """D8 displayed path indices beyond the end of an object's path show its last pose (the convention of every padded path): in
+    get_rot_pos_from_path the selection is clamped to path_len - 1 and never reduced modulo the path length (which would show an
+    unrelated earlier pose under the requested index)"""
+    m = repo.mod("magpylib._src.display.traces_utility")
+    fn = m.funcs.get("get_rot_pos_from_path")
+    res.require(fn is not None, "anchor vanished: get_rot_pos_from_path")
+    lens = {t.id for s_ in ast.walk(fn) if isinstance(s_, ast.Assign) and "shape[0]" in ast.unparse(s_.value) or (isinstance(s_, ast.Assign) and ast.unparse(s_.value).startswith("len("))
+            for t in s_.targets if isinstance(t, ast.Name)}
+    res.require(lens, "anchor vanished: path length variable in get_rot_pos_from_path")
+    mods = [b for b in ast.walk(fn) if (isinstance(b, ast.BinOp) and isinstance(b.op, ast.Mod) and any(isinstance(x, ast.Name) and x.id in lens for x in ast.walk(b.right)))
+            or (isinstance(b, ast.Call) and getattr(b.func, "attr", "") in ("mod", "remainder", "fmod") and any(isinstance(x, ast.Name) and x.id in lens for x in ast.walk(b)))]
+    clamps = [s_ for s_ in ast.walk(fn) if (isinstance(s_, ast.Assign) and isinstance(s_.targets[0], ast.Subscript) and isinstance(s_.targets[0].slice, ast.Compare)
+                                            and any(isinstance(x, ast.Name) and x.id in lens for x in ast.walk(s_.targets[0].slice))
+                                            and any(isinstance(x, ast.Name) and x.id in lens for x in ast.walk(s_.value)))
+              or (isinstance(s_, ast.Call) and getattr(s_.func, "attr", "") in ("clip", "minimum") and any(isinstance(x, ast.Name) and x.id in lens for x in ast.walk(s_)))]
+    ok = bool(clamps) and not mods
+    res.ob("D8:path index selection clamps, never wraps", ok, {"rule": "D8", "clamps": [norm(c) for c in clamps], "modular_reductions": [norm(x) for x in mods]})
+    for x in mods:
+        res.add(Finding("D8", m.rel, "get_rot_pos_from_path", x, "path indices are reduced modulo the path length: an index beyond the path end shows an earlier pose instead of the "
+                        "last one (and negative indices lose their from-the-end meaning after np.unique)", x.lineno))
+    if not clamps and not mods:
+        res.add(Finding("D8", m.rel, "get_rot_pos_from_path", fn, "indices beyond the path end are no longer clamped to the last pose", fn.lineno))
 
 
 def d3(repo, res):
@@ -468,6 +504,17 @@ def d3(repo, res):
         raise AnalysisError(f"D3b: only {n_sites} placing call sites found")
 
 
+def _is_lazy_memo(fn, w):
+    """`if self._x is None: self._x = <value>` inside a property getter: first-use materialisation of a private attribute"""
+    for iff in ast.walk(fn):
+        if isinstance(iff, ast.If) and any(w.stmt is x for x in ast.walk(iff)):
+            t = iff.test
+            if isinstance(t, ast.Compare) and isinstance(t.ops[0], ast.Is) and isinstance(t.comparators[0], ast.Constant) and t.comparators[0].value is None \
+                    and ast.unparse(t.left) in (f"self.{w.attr}", f"getattr(self, '{w.attr}', None)") and w.attr.startswith("_"):
+                return True
+    return False
+
+
 def _kw_true(call, name):
     for k in call.keywords:
         if k.arg == name:
@@ -499,7 +546,7 @@ MANIFEST = {
     "category": "other",
     "text": "Static decision of the non-mutation clause of show(): every temporary overwrite reachable from show is restored on all exits, every "
             "other write to object/style state lies in code reached only through the style_temp_edit(copy=True) region and targets the temporary "
-            "style (or is a triaged cache), defaults are only read; plus frame typing of the vertex placement. Does not decide the geometry of the models. Also decided by alias analysis and def-use: no in-place write on arrays held by displayed objects, a placed model is never placed again, displayed poses pair one object's position and orientation at the same indices, nested collections are flattened recursively.",
+            "style (or is a triaged cache), defaults are only read; plus frame typing of the vertex placement. Does not decide the geometry of the models. Also decided by alias analysis and def-use: no in-place write on arrays held by displayed objects, a placed model is never placed again, displayed poses pair one object's position and orientation at the same indices, nested collections are flattened recursively. Round 3: the SI prefix table (D5), animation frames drawn at the path index they are labelled with (D6), the path line keeps the path order (D7), displayed path indices clamp and never wrap (D8).",
     "design_ref": "DESIGN.md §3 C19",
     "note": "Trusted: python ast; name-based call graph; triaged TriangularMesh status caches and lazy style initialisation.",
     "technique": "static analysis: call-graph dominance (who-may-write), swap-restore typestate, frame-type abstract interpretation",
